@@ -41,6 +41,20 @@ TABLE = {
             {"driver": "batch", "required_clauses": ["dispatch-owed", "callback-legitimacy", "timer-fire"]},
         ],
     },
+    "C05": {
+        "level": "model_checking", "rule": WORLD_RULE, "assumptions": SEQ_ASSUME + ["time is the harness's virtual clock on a grid of 1 s steps; deadlines in {past, +1, +2, unrepresentable}"],
+        "drivers": [
+            {"driver": "timers", "required_clauses": ["timer-fire", "dispatch-owed", "wait-request", "wait-slept", "callback-legitimacy"]},
+            {"driver": "batch", "required_clauses": ["timer-fire"]},
+        ],
+    },
+    "C12": {
+        "level": "model_checking", "rule": WORLD_RULE, "assumptions": SEQ_ASSUME + ["the 'no oversleeping beyond scheduling latency' clause is a real-time statement; what is decided is that the timeout handed to the poller equals min(timeout, earliest armed deadline - now) exactly, that exactly one wait happens, that nothing pending means the poller is not readable, and that a timer which was the limit fires in that dispatch"],
+        "drivers": [
+            {"driver": "wait", "required_clauses": ["wait-request", "wait-slept", "wait-forever", "timer-fire"]},
+            {"driver": "timers", "required_clauses": ["wait-request"]},
+        ],
+    },
     "C06": {
         "level": "model_checking", "rule": WORLD_RULE, "assumptions": SEQ_ASSUME + ["no actor owns a strong LoopHandle (the documented reference cycle is excluded by construction)"],
         "drivers": [
